@@ -12,6 +12,7 @@ typedef struct {
     int nrg;                             /* row groups (same shape each; rows offset by rg*N); -1 = a file without row groups (footer right after the magic) */
     uint64_t mask[RF_MAXC];              /* bit r set => row r null (opt columns) */
     int npages[RF_MAXC]; int page_levels[RF_MAXC][8];   /* 0 pages => single page */
+    int uniform_page[RF_MAXC];           /* > 0: pages of this many level entries each (any number of pages) */
     int enc[RF_MAXC];                    /* ENC_PLAIN / ENC_PLAIN_DICT / ENC_RLE_DICT / ... */
     int ctx[RF_MAXC];                    /* nesting context of the leaf (RF_CTX_*); 0 = flat, repetition from .opt */
     const int16_t* defs[RF_MAXC]; const int16_t* reps[RF_MAXC];   /* explicit levels (N entries) for nested contexts */
